@@ -41,6 +41,9 @@ type G struct {
 	spawn  map[string]int // per-site child counter
 	Exited bool
 	Sys    bool // started by repo code (instrumented go statement / timer), not by the harness
+	// At is the last blocking-capable site the goroutine announced (select, blocked send/receive),
+	// recorded even when the park point itself is masked: tells where a goroutine that never came back is.
+	At string
 }
 
 // ParkReq is what a goroutine hands to the scheduler when it parks.
@@ -145,6 +148,7 @@ func (r *Run) park(kind Kind, site string, obj any) {
 		select {}
 	}
 	g := r.self()
+	g.At = site
 	raceDisable()
 	r.Req <- ParkReq{G: g, Site: site, Kind: kind, Obj: obj}
 	<-g.wake
@@ -177,8 +181,18 @@ func mandatory(kind Kind, site string, obj any) {
 	r.park(kind, site, obj)
 }
 
-// Yield is an optional preemption point.
-func Yield(site string) { optional(KYield, site, nil) }
+// Yield is an optional preemption point (before a select or a range over a channel).
+func Yield(site string) {
+	r := cur.Load()
+	if r == nil {
+		return
+	}
+	r.self().At = site
+	if r.Mask[KYield] {
+		return
+	}
+	r.park(KYield, site, nil)
+}
 
 // UserYield is a preemption point in harness code that is never masked.
 func UserYield(site string) { mandatory(KUser, site, nil) }
@@ -300,6 +314,7 @@ func Send[T any](ch chan<- T, v T, site string) {
 		return
 	default:
 	}
+	r.self().At = site
 	ch <- v
 	r.park(KWoke, site, nil)
 }
@@ -325,6 +340,7 @@ func Recv2[T any](ch <-chan T, site string) (T, bool) {
 		return v, ok
 	default:
 	}
+	r.self().At = site
 	v, ok := <-ch
 	r.park(KWoke, site, nil)
 	return v, ok
@@ -457,3 +473,25 @@ func (r *Run) Hit(site string) { r.SiteHits[site]++ }
 
 // Polled is the park after a select that has a default arm (it cannot have blocked): optional.
 func Polled(site string, arm int) { optional(KYield, site, nil) }
+
+// SelfName returns the logical name of the calling goroutine ("" outside a run or if unregistered).
+func SelfName() string {
+	r := cur.Load()
+	if r == nil {
+		return ""
+	}
+	gid := goid()
+	r.mu.Lock()
+	defer r.mu.Unlock()
+	if g := r.byGoid[gid]; g != nil {
+		return g.Name
+	}
+	return ""
+}
+
+// At records where the calling goroutine is about to block (harness transport).
+func At(site string) {
+	if r := cur.Load(); r != nil {
+		r.self().At = site
+	}
+}
